@@ -69,6 +69,8 @@ def mount(img, sched=None, lazy=True):
     if sched:
         f.fs._PyFat__lock = S.SLock(sched, "dev")
         f._lock = S.SLock(sched, "fs", reentrant=True)
+        if hasattr(f.fs, "fs_lock"):
+            f.fs.fs_lock = S.SLock(sched, "fsl", reentrant=True)      # file handles take it from here when they are opened
     return f, dev
 
 
